@@ -356,3 +356,1103 @@ Proof.
     replace (rb p + b0 - fv0) with (rb p + (b0 - fv0)) by ring. nia.
   - intros X. inversion X; subst. eapply calc_in_exact_out_not_broken; exact C.
 Qed.
+
+(** ** liquidity *)
+
+Lemma wf_not_empty p : wf p -> is_empty p = false.
+Proof.
+  intros (Ha & Hb & Hs). unfold is_empty.
+  destruct (Z.eqb_spec (ra p) 0); [lia|reflexivity].
+Qed.
+
+Lemma add_liquidity_spec p da db p' a b s : wf p ->
+  add_liquidity p da db = POk (p', (a, b, s)) ->
+  1 <= da /\ 1 <= db /\ 0 <= a <= da /\ 0 <= b <= db /\ 0 <= s /\
+  ra p' = ra p + a /\ rb p' = rb p + b /\ sh p' = sh p + s /\
+  s * ra p <= a * sh p /\ s * rb p <= b * sh p /\
+  (a = da \/ b = db).
+Proof.
+  intros W H. pose proof W as (Ha & Hb & Hs). unfold add_liquidity in H.
+  destruct (Z.leb_spec da 0) as [|Hda]; [discriminate|].
+  destruct (Z.leb_spec db 0) as [|Hdb]; [discriminate|]. cbn [orb] in H.
+  rewrite (wf_not_empty p W) in H.
+  destruct (Z.leb_spec (ra p) 0); [lia|]. destruct (Z.leb_spec (rb p) 0); [lia|]. cbn [orb] in H.
+  set (prodA := rb p * da) in *. set (prodB := ra p * db) in *.
+  destruct (quot_spec prodB (rb p) ltac:(unfold prodB; nia) ltac:(lia)) as (QB & QB0 & QB1).
+  destruct (quot_spec prodA (ra p) ltac:(unfold prodA; nia) ltac:(lia)) as (QA & QA0 & QA1).
+  rewrite QA, QB in H.
+  set (actA := if prodA <=? prodB then da else prodB / rb p) in *.
+  set (actB := if prodA <=? prodB then prodA / ra p else db) in *.
+  assert (HA : 0 <= actA <= da /\ 0 <= actB <= db /\ (actA = da \/ actB = db)).
+  { unfold actA, actB. destruct (Z.leb_spec prodA prodB) as [L|L].
+    - split; [lia|]. split; [|left; reflexivity]. split; [lia|].
+      apply Z.div_le_upper_bound; [lia|]. unfold prodA, prodB in *. nia.
+    - split; [|split; [lia|right; reflexivity]]. split; [lia|].
+      apply Z.div_le_upper_bound; [lia|]. unfold prodA, prodB in *. nia. }
+  destruct HA as (HA1 & HA2 & HA3).
+  destruct (quot_spec (actA * sh p) (ra p) ltac:(nia) ltac:(lia)) as (SA & SA0 & SA1).
+  destruct (quot_spec (actB * sh p) (rb p) ltac:(nia) ltac:(lia)) as (SB & SB0 & SB1).
+  rewrite SA, SB in H.
+  set (shA := actA * sh p / ra p) in *. set (shB := actB * sh p / rb p) in *.
+  set (s0 := if shA <=? shB then shA else shB) in *.
+  assert (HS : 0 <= s0 /\ s0 <= shA /\ s0 <= shB).
+  { unfold s0. destruct (Z.leb_spec shA shB); lia. }
+  repeat dif H.
+  clearbody actA actB s0.
+  assert (E : mkPool (ra p + actA) (rb p + actB) (sh p + s0) = p' /\ actA = a /\ actB = b /\ s0 = s)
+    by (repeat split; congruence).
+  destruct E as (<- & <- & <- & <-). cbn [ra rb sh].
+  repeat split; try lia; try nia.
+Qed.
+
+(* the pool re-initialised by a deposit into an emptied pool *)
+Lemma add_liquidity_empty p da db : is_empty p = true -> 1 <= da -> 1 <= db ->
+  add_liquidity p da db = POk (mkPool da db (initial_shares da db), (da, db, initial_shares da db)).
+Proof.
+  intros E Ha Hb. unfold add_liquidity. rewrite E.
+  destruct (Z.leb_spec da 0); [lia|]. destruct (Z.leb_spec db 0); [lia|]. reflexivity.
+Qed.
+
+Lemma add_liquidity_not_broken p da db : add_liquidity p da db <> PPanic InvariantBroken.
+Proof.
+  unfold add_liquidity. repeat (match goal with |- context [if ?c then _ else _] => destruct c end); discriminate.
+Qed.
+
+Lemma remove_liquidity_spec p s p' wa wb : wf p ->
+  remove_liquidity p s = POk (p', (wa, wb)) ->
+  1 <= s <= sh p /\ 0 <= wa <= ra p /\ 0 <= wb <= rb p /\
+  ra p' = ra p - wa /\ rb p' = rb p - wb /\ sh p' = sh p - s /\
+  wa * sh p <= ra p * s /\ wb * sh p <= rb p * s /\
+  (s < sh p -> 1 <= ra p' /\ 1 <= rb p') /\
+  (s = sh p -> ra p' = 0 /\ rb p' = 0).
+Proof.
+  intros (Ha & Hb & Hs) H. unfold remove_liquidity, share_value in H.
+  destruct (Z.leb_spec s 0) as [|Hs1]; [discriminate|].
+  destruct (Z.ltb_spec (sh p) s) as [|Hs2]; [discriminate|].
+  destruct (quot_spec (ra p * s) (sh p) ltac:(nia) ltac:(lia)) as (QA & QA0 & QA1).
+  destruct (quot_spec (rb p * s) (sh p) ltac:(nia) ltac:(lia)) as (QB & QB0 & QB1).
+  rewrite QA, QB in H.
+  set (qa := ra p * s / sh p) in *. set (qb := rb p * s / sh p) in *.
+  dif H. clearbody qa qb.
+  assert (E : mkPool (ra p - qa) (rb p - qb) (sh p - s) = p' /\ qa = wa /\ qb = wb) by (repeat split; congruence).
+  destruct E as (<- & <- & <-). cbn [ra rb sh].
+  assert (qa <= ra p) by nia. assert (qb <= rb p) by nia.
+  repeat split; try lia; try nia.
+Qed.
+
+Lemma remove_liquidity_not_broken p s : wf p -> remove_liquidity p s <> PPanic InvariantBroken.
+Proof.
+  intros (Ha & Hb & Hs). unfold remove_liquidity, share_value.
+  destruct (Z.leb_spec s 0) as [|Hs1]; [discriminate|].
+  destruct (Z.ltb_spec (sh p) s) as [|Hs2]; [discriminate|].
+  destruct (quot_spec (ra p * s) (sh p) ltac:(nia) ltac:(lia)) as (QA & QA0 & QA1).
+  destruct (quot_spec (rb p * s) (sh p) ltac:(nia) ltac:(lia)) as (QB & QB0 & QB1).
+  rewrite QA, QB.
+  set (qa := ra p * s / sh p) in *. set (qb := rb p * s / sh p) in *.
+  assert (qa <= ra p) by nia. assert (qb <= rb p) by nia.
+  destruct (Z.ltb_spec (ra p - qa) 0); [lia|]. destruct (Z.ltb_spec (rb p - qb) 0); [lia|].
+  discriminate.
+Qed.
+
+(* reserves per share never decrease: ra'/S' >= ra/S and rb'/S' >= rb/S *)
+Lemma add_share_value p da db p' a b s : wf p ->
+  add_liquidity p da db = POk (p', (a, b, s)) ->
+  ra p' * sh p >= ra p * sh p' /\ rb p' * sh p >= rb p * sh p'.
+Proof.
+  intros W H. destruct (add_liquidity_spec _ _ _ _ _ _ _ W H) as (_ & _ & _ & _ & _ & -> & -> & -> & ? & ? & _).
+  split; nia.
+Qed.
+
+Lemma remove_share_value p s p' wa wb : wf p ->
+  remove_liquidity p s = POk (p', (wa, wb)) ->
+  ra p' * sh p >= ra p * sh p' /\ rb p' * sh p >= rb p * sh p'.
+Proof.
+  intros W H. destruct (remove_liquidity_spec _ _ _ _ _ W H) as (_ & _ & _ & -> & -> & -> & ? & ? & _).
+  split; nia.
+Qed.
+
+(* depositing and immediately withdrawing the minted shares returns at most what was put in *)
+Lemma deposit_withdraw_no_profit p da db p' a b s p'' wa wb :
+  wf p \/ is_empty p = true ->
+  add_liquidity p da db = POk (p', (a, b, s)) ->
+  remove_liquidity p' s = POk (p'', (wa, wb)) ->
+  wa <= a /\ wb <= b.
+Proof.
+  intros [W|E] HA HR.
+  - destruct (add_liquidity_spec _ _ _ _ _ _ _ W HA) as (? & ? & ? & ? & ? & Ea & Eb & Es & ? & ? & _).
+    pose proof W as (Ha & Hb & Hs).
+    unfold remove_liquidity, share_value in HR.
+    destruct (Z.leb_spec s 0) as [|Hs1]; [discriminate|].
+    destruct (Z.ltb_spec (sh p') s) as [|Hs2]; [discriminate|].
+    rewrite Ea, Eb, Es in HR.
+    destruct (quot_spec ((ra p + a) * s) (sh p + s) ltac:(nia) ltac:(lia)) as (QA & QA0 & QA1).
+    destruct (quot_spec ((rb p + b) * s) (sh p + s) ltac:(nia) ltac:(lia)) as (QB & QB0 & QB1).
+    rewrite QA, QB in HR.
+    set (qa := (ra p + a) * s / (sh p + s)) in *. set (qb := (rb p + b) * s / (sh p + s)) in *.
+    dif HR. clearbody qa qb.
+    assert (E : qa = wa /\ qb = wb) by (split; congruence). destruct E as (<- & <-).
+    split.
+    + assert ((ra p + a) * s <= a * (sh p + s)) by nia. nia.
+    + assert ((rb p + b) * s <= b * (sh p + s)) by nia. nia.
+  - unfold add_liquidity in HA. rewrite E in HA.
+    destruct ((da <=? 0) || (db <=? 0)) eqn:G; [discriminate|].
+    apply orb_false_elim in G. destruct G as (G1 & G2). apply Z.leb_gt in G1, G2.
+    assert (X : mkPool da db (initial_shares da db) = p' /\ da = a /\ db = b /\ initial_shares da db = s)
+      by (repeat split; congruence).
+    destruct X as (<- & <- & <- & <-).
+    unfold remove_liquidity, share_value in HR. cbn [ra rb sh] in HR.
+    destruct (Z.leb_spec (initial_shares da db) 0) as [|Hs1]; [discriminate|].
+    rewrite Z.ltb_irrefl in HR.
+    rewrite !Z.quot_mul in HR by lia.
+    dif HR. assert (X : da = wa /\ db = wb) by (split; congruence). lia.
+Qed.
+
+(** ** sequences of swaps on an otherwise untouched pool *)
+
+Inductive sop :=
+| SAB (a fee : Z) | SBA (b fee : Z) | SForB (b fee : Z) | SForA (a fee : Z).
+
+Definition sexec (p : pool) (o : sop) : pres (pool * (Z * Z)) :=
+  match o with
+  | SAB a f => swap_exact_a_for_b p a f
+  | SBA b f => swap_exact_b_for_a p b f
+  | SForB b f => swap_a_for_exact_b p b f
+  | SForA a f => swap_b_for_exact_a p a f
+  end.
+
+(* a failed swap leaves the pool unchanged *)
+Definition sstep (p : pool) (o : sop) : pool :=
+  match sexec p o with POk (p', _) => p' | PPanic _ => p end.
+
+Definition sruns (p : pool) (l : list sop) : pool := fold_left sstep l p.
+
+Lemma sstep_mono p o : wf p ->
+  let p' := sstep p o in
+  wf p' /\ sh p' = sh p /\ ra p' * rb p' >= ra p * rb p.
+Proof.
+  intros W p'. unfold p', sstep. pose proof W as (Ha & Hb & Hs).
+  destruct (sexec p o) as [[q [u v]]|w] eqn:E; [|repeat split; try lia; exact W].
+  destruct o; cbn [sexec] in E.
+  - apply swap_exact_a_for_b_spec in E; [|exact W].
+    destruct E as (? & ? & Ea & Eb & Es & ? & ? & ? & ?). unfold wf. rewrite Ea, Eb, Es.
+    repeat split; try lia; nia.
+  - apply swap_exact_b_for_a_spec in E; [|exact W].
+    destruct E as (? & ? & Ea & Eb & Es & ? & ? & ? & ?). unfold wf. rewrite Ea, Eb, Es.
+    repeat split; try lia; nia.
+  - apply swap_a_for_exact_b_spec in E; [|exact W].
+    destruct E as (? & ? & Ea & Eb & Es & ? & ? & ? & ?). unfold wf. rewrite Ea, Eb, Es.
+    repeat split; try lia; nia.
+  - apply swap_b_for_exact_a_spec in E; [|exact W].
+    destruct E as (? & ? & Ea & Eb & Es & ? & ? & ? & ?). unfold wf. rewrite Ea, Eb, Es.
+    repeat split; try lia; nia.
+Qed.
+
+Lemma sruns_mono l : forall p, wf p ->
+  let p' := sruns p l in
+  wf p' /\ sh p' = sh p /\ ra p' * rb p' >= ra p * rb p.
+Proof.
+  induction l as [|o l IH]; intros p W; cbn [sruns fold_left].
+  - repeat split; try lia; apply W.
+  - destruct (sstep_mono p o W) as (W1 & S1 & P1).
+    destruct (IH (sstep p o) W1) as (W2 & S2 & P2). unfold sruns in *.
+    repeat split; try lia; apply W2.
+Qed.
+
+(* the trader holds (ta, tb); what leaves the pool reaches the trader and conversely.
+   No sequence of swaps gives the trader more of one token without less of the other. *)
+Lemma swaps_no_free_lunch p l : wf p ->
+  let p' := sruns p l in
+  (ra p' < ra p -> rb p' > rb p) /\
+  (rb p' < rb p -> ra p' > ra p) /\
+  (ra p' = ra p -> rb p' >= rb p) /\
+  (rb p' = rb p -> ra p' >= ra p).
+Proof.
+  intros W p'. destruct (sruns_mono l p W) as ((Ha' & Hb' & _) & _ & P). fold p' in Ha', Hb', P.
+  destruct W as (Ha & Hb & _).
+  repeat split; intros; nia.
+Qed.
+
+(** ** symmetry: exchanging the roles of A and B commutes with every operation *)
+
+Definition flip2 (r : pres (pool * (Z * Z))) : pres (pool * (Z * Z)) :=
+  match r with POk (p, o) => POk (flip p, o) | PPanic w => PPanic w end.
+Definition flip_rm (r : pres (pool * (Z * Z))) : pres (pool * (Z * Z)) :=
+  match r with POk (p, (a, b)) => POk (flip p, (b, a)) | PPanic w => PPanic w end.
+Definition flip_add (r : pres (pool * (Z * Z * Z))) : pres (pool * (Z * Z * Z)) :=
+  match r with POk (p, (a, b, s)) => POk (flip p, (b, a, s)) | PPanic w => PPanic w end.
+
+Lemma flip_flip p : flip (flip p) = p.
+Proof. destruct p; reflexivity. Qed.
+
+Lemma update_reserves_flip p na fa nb fb :
+  update_reserves (flip p) nb fb na fa =
+  match update_reserves p na fa nb fb with POk q => POk (flip q) | PPanic w => PPanic w end.
+Proof.
+  unfold update_reserves, flip; cbn [ra rb sh].
+  rewrite (andb_comm (int_ok (nb - fb))), (Z.mul_comm (nb - fb)), (Z.mul_comm (rb p)).
+  destruct (negb _); [reflexivity|]. destruct (_ <? _); reflexivity.
+Qed.
+
+Lemma swap_exact_in_flip p x f : swap_exact_a_for_b (flip p) x f = flip2 (swap_exact_b_for_a p x f).
+Proof.
+  unfold swap_exact_a_for_b, swap_exact_b_for_a. cbn [flip ra rb sh].
+  destruct (calc_out_exact_in x (rb p) (ra p) f) as [[a fv]|w]; [|reflexivity].
+  rewrite (andb_comm (int_ok (rb p + x))).
+  destruct (negb _); [reflexivity|].
+  change (mkPool (rb p) (ra p) (sh p)) with (flip p).
+  rewrite update_reserves_flip.
+  destruct (update_reserves p (ra p - a) 0 (rb p + x) fv); reflexivity.
+Qed.
+
+Lemma swap_exact_in_flip' p x f : swap_exact_b_for_a (flip p) x f = flip2 (swap_exact_a_for_b p x f).
+Proof.
+  pose proof (swap_exact_in_flip (flip p) x f) as H. rewrite flip_flip in H. rewrite H.
+  destruct (swap_exact_b_for_a (flip p) x f) as [[q o]|]; cbn [flip2]; [rewrite flip_flip|]; reflexivity.
+Qed.
+
+Lemma swap_exact_out_flip p x f : swap_a_for_exact_b (flip p) x f = flip2 (swap_b_for_exact_a p x f).
+Proof.
+  unfold swap_a_for_exact_b, swap_b_for_exact_a. cbn [flip ra rb sh].
+  destruct (calc_in_exact_out x (ra p) (rb p) f) as [[b fv]|w]; [|reflexivity].
+  rewrite (andb_comm (int_ok (rb p + b))).
+  destruct (negb _); [reflexivity|].
+  change (mkPool (rb p) (ra p) (sh p)) with (flip p).
+  rewrite update_reserves_flip.
+  destruct (update_reserves p (ra p - x) 0 (rb p + b) fv); reflexivity.
+Qed.
+
+Lemma swap_exact_out_flip' p x f : swap_b_for_exact_a (flip p) x f = flip2 (swap_a_for_exact_b p x f).
+Proof.
+  pose proof (swap_exact_out_flip (flip p) x f) as H. rewrite flip_flip in H. rewrite H.
+  destruct (swap_b_for_exact_a (flip p) x f) as [[q o]|]; cbn [flip2]; [rewrite flip_flip|]; reflexivity.
+Qed.
+
+Lemma remove_liquidity_flip p s : remove_liquidity (flip p) s = flip_rm (remove_liquidity p s).
+Proof.
+  unfold remove_liquidity, share_value. cbn [flip ra rb sh].
+  destruct (s <=? 0); [reflexivity|]. destruct (sh p <? s); [reflexivity|].
+  rewrite (orb_comm (rb p - _ <? 0)).
+  destruct (_ || _); reflexivity.
+Qed.
+
+Lemma min_sym a b : (if a <=? b then a else b) = (if b <=? a then b else a).
+Proof. destruct (Z.leb_spec a b), (Z.leb_spec b a); lia. Qed.
+
+Lemma add_liquidity_flip p da db : add_liquidity (flip p) db da = flip_add (add_liquidity p da db).
+Proof.
+  unfold add_liquidity, is_empty. cbn [flip ra rb sh].
+  rewrite (orb_comm (db <=? 0)). destruct (_ || _); [reflexivity|].
+  rewrite (andb_comm (rb p =? 0)). unfold initial_shares. rewrite (Z.mul_comm db da).
+  destruct (_ && _); [reflexivity|].
+  rewrite (orb_comm (rb p <=? 0)).
+  destruct (Z.leb_spec (ra p) 0) as [|Ha]; [reflexivity|].
+  destruct (Z.leb_spec (rb p) 0) as [|Hb]; [reflexivity|]. cbn [orb].
+  set (A := rb p * da). set (B := ra p * db).
+  (* the chosen amounts are exchanged *)
+  assert (EA : (if B <=? A then db else Z.quot A (ra p)) = (if A <=? B then Z.quot A (ra p) else db)).
+  { destruct (Z.leb_spec B A), (Z.leb_spec A B); try reflexivity; try lia.
+    assert (A = B) by lia. subst A. rewrite H1. unfold B. rewrite Z.mul_comm, Z.quot_mul by lia. reflexivity. }
+  assert (EB : (if B <=? A then Z.quot B (rb p) else da) = (if A <=? B then da else Z.quot B (rb p))).
+  { destruct (Z.leb_spec B A), (Z.leb_spec A B); try reflexivity; try lia.
+    assert (B = A) by lia. rewrite H1. unfold A. rewrite Z.mul_comm, Z.quot_mul by lia. reflexivity. }
+  rewrite EA, EB.
+  set (actA := if A <=? B then da else Z.quot B (rb p)).
+  set (actB := if A <=? B then Z.quot A (ra p) else db).
+  rewrite (min_sym (Z.quot (actB * sh p) (rb p))).
+  set (s := if Z.quot (actA * sh p) (ra p) <=? Z.quot (actB * sh p) (rb p) then _ else _).
+  destruct (negb (int_ok s)); [reflexivity|].
+  rewrite (andb_comm (int_ok (rb p + actB))).
+  destruct (negb _); reflexivity.
+Qed.
+
+(** ** DenominatedPool: the result does not depend on which denom is called A *)
+
+Definition dp_map (r : pres (dpool * (Z * Z))) : pres (dpool * (Z * Z)) :=
+  match r with POk (d, o) => POk (dp_flip d, o) | PPanic w => PPanic w end.
+
+Lemma dp_swap_exact_in_flip d denom amt fee : dp_a d <> dp_b d ->
+  dp_swap_exact_in (dp_flip d) denom amt fee = dp_map (dp_swap_exact_in d denom amt fee).
+Proof.
+  intros N. unfold dp_swap_exact_in, dp_flip. cbn [dp_pool dp_a dp_b].
+  destruct (Nat.eqb_spec denom (dp_a d)) as [Ea|Ea]; destruct (Nat.eqb_spec denom (dp_b d)) as [Eb|Eb]; try congruence.
+  - rewrite swap_exact_in_flip'. destruct (swap_exact_a_for_b (dp_pool d) amt fee) as [[q o]|]; reflexivity.
+  - rewrite swap_exact_in_flip. destruct (swap_exact_b_for_a (dp_pool d) amt fee) as [[q o]|]; reflexivity.
+  - reflexivity.
+Qed.
+
+Lemma dp_swap_exact_out_flip d denom amt fee : dp_a d <> dp_b d ->
+  dp_swap_exact_out (dp_flip d) denom amt fee = dp_map (dp_swap_exact_out d denom amt fee).
+Proof.
+  intros N. unfold dp_swap_exact_out, dp_flip. cbn [dp_pool dp_a dp_b].
+  destruct (Nat.eqb_spec denom (dp_a d)) as [Ea|Ea]; destruct (Nat.eqb_spec denom (dp_b d)) as [Eb|Eb]; try congruence.
+  - rewrite swap_exact_out_flip. destruct (swap_b_for_exact_a (dp_pool d) amt fee) as [[q o]|]; reflexivity.
+  - rewrite swap_exact_out_flip'. destruct (swap_a_for_exact_b (dp_pool d) amt fee) as [[q o]|]; reflexivity.
+  - reflexivity.
+Qed.
+
+(** * keeper *)
+
+Lemma sumN_ext n f g : (forall i, (i < n)%nat -> f i = g i) -> sumN n f = sumN n g.
+Proof.
+  induction n as [|n IH]; intros H; cbn [sumN]; [reflexivity|].
+  rewrite IH by (intros; apply H; lia). rewrite H by lia. reflexivity.
+Qed.
+
+Lemma sw_sumN_upd_below f a v : forall k, (k <= a)%nat -> sumN k (upd f a v) = sumN k f.
+Proof.
+  intros k Hk. apply sumN_ext. intros i Hi. unfold upd. destruct (Nat.eqb_spec i a); [lia|reflexivity].
+Qed.
+
+Lemma sw_sumN_upd n f a v : (a < n)%nat -> sumN n (upd f a v) = sumN n f - f a + v.
+Proof.
+  induction n as [|n IH]; intros H; [lia|].
+  cbn [sumN]. unfold upd at 2.
+  destruct (Nat.eqb_spec n a) as [->|Hne].
+  - rewrite sw_sumN_upd_below by lia. lia.
+  - rewrite IH by lia. lia.
+Qed.
+
+Lemma sum2_upd2 n f x y v : (x < n)%nat -> (y < n)%nat ->
+  sum2 n (upd2 f x y v) = sum2 n f - f x y + v.
+Proof.
+  intros Hx Hy. unfold sum2.
+  rewrite (sumN_ext n _ (upd (fun x' => sumN n (f x')) x (sumN n (f x) - f x y + v))).
+  - rewrite sw_sumN_upd by exact Hx. lia.
+  - intros i Hi. unfold upd. destruct (Nat.eqb_spec i x) as [->|Ne].
+    + rewrite <- (sw_sumN_upd n (f x) y v Hy). apply sumN_ext. intros j Hj.
+      unfold upd2, upd. rewrite Nat.eqb_refl. reflexivity.
+    + apply sumN_ext. intros j Hj. unfold upd2. destruct (Nat.eqb_spec i x); [congruence|reflexivity].
+Qed.
+
+Definition res_v (d x y : nat) (po : option pool) : Z :=
+  match po with
+  | Some p => (if Nat.eqb x d then ra p else 0) + (if Nat.eqb y d then rb p else 0)
+  | None => 0
+  end.
+
+Lemma res_in_v d pools x y : res_in d pools x y = res_v d x y (pools x y).
+Proof. reflexivity. Qed.
+
+Definition Inv (e : env) (s : kstate) : Prop :=
+  (forall d, (d < nden e)%nat -> k_bal s (macc e) d = sum2 (nden e) (res_in d (k_pool s))) /\
+  (forall x y, (x < nden e)%nat -> (y < nden e)%nat ->
+     pool_shares (k_pool s x y) = sumN (S (nusers e)) (fun a => k_sh s a x y)) /\
+  (forall x y p, k_pool s x y = Some p -> wf p /\ (x < y)%nat) /\
+  (forall a x y, 0 <= k_sh s a x y).
+
+Definition lo (d1 d2 : nat) : nat := if Nat.ltb d1 d2 then d1 else d2.
+Definition hi (d1 d2 : nat) : nat := if Nat.ltb d1 d2 then d2 else d1.
+Definition sel {A} (d1 d2 : nat) (a1 a2 : A) : A := if Nat.ltb d1 d2 then a1 else a2.
+
+Definition opt_ra (po : option pool) : Z := match po with Some p => ra p | None => 0 end.
+Definition opt_rb (po : option pool) : Z := match po with Some p => rb p | None => 0 end.
+
+(* the effect of a successful keeper operation: pool (x,y) becomes po', the caller pays
+   (dx, dy) to the module account (negative: receives), the caller's shares change by ds *)
+Definition applies (e : env) (s s' : kstate) (who x y : nat) (po' : option pool) (dx dy ds : Z) : Prop :=
+  (x < y)%nat /\ (y < nden e)%nat /\ (who < nusers e)%nat /\
+  (forall x' y', k_pool s' x' y' = upd2 (k_pool s) x y po' x' y') /\
+  (forall a x' y', k_sh s' a x' y' = upd3 (k_sh s) who x y (k_sh s who x y + ds) a x' y') /\
+  (forall a d, k_bal s' a d = k_bal s a d
+       - (if Nat.eqb a who then (if Nat.eqb d x then dx else 0) + (if Nat.eqb d y then dy else 0) else 0)
+       + (if Nat.eqb a (macc e) then (if Nat.eqb d x then dx else 0) + (if Nat.eqb d y then dy else 0) else 0)).
+
+Lemma inv_effect e s s' who x y po' dx dy ds :
+  Inv e s -> applies e s s' who x y po' dx dy ds ->
+  (forall p', po' = Some p' -> wf p') ->
+  opt_ra po' = opt_ra (k_pool s x y) + dx ->
+  opt_rb po' = opt_rb (k_pool s x y) + dy ->
+  pool_shares po' = pool_shares (k_pool s x y) + ds ->
+  0 <= k_sh s who x y + ds ->
+  Inv e s'.
+Proof.
+  intros (I1 & I2 & I3 & I4) (Hxy & Hy & Hw & EP & ES & EB) Wf Ra Rb Sh Nn.
+  assert (Hx : (x < nden e)%nat) by lia.
+  split; [|split; [|split]].
+  - (* custody *)
+    intros d Hd. rewrite EB, I1 by exact Hd.
+    unfold macc. destruct (Nat.eqb_spec (nusers e) who) as [|_]; [lia|]. rewrite Nat.eqb_refl.
+    assert (SS : sum2 (nden e) (res_in d (k_pool s')) = sum2 (nden e) (upd2 (res_in d (k_pool s)) x y (res_v d x y po'))).
+    { unfold sum2. apply sumN_ext. intros i Hi. apply sumN_ext. intros j Hj.
+      unfold res_in at 1. rewrite EP. unfold upd2.
+      destruct (Nat.eqb i x && Nat.eqb j y) eqn:B; [|reflexivity].
+      apply andb_true_iff in B. destruct B as (B1 & B2). apply Nat.eqb_eq in B1, B2. subst. reflexivity. }
+    rewrite SS.
+    rewrite sum2_upd2 by assumption. rewrite res_in_v.
+    assert (res_v d x y po' - res_v d x y (k_pool s x y) =
+            (if Nat.eqb d x then dx else 0) + (if Nat.eqb d y then dy else 0)).
+    { unfold res_v. rewrite (Nat.eqb_sym d x), (Nat.eqb_sym d y).
+      destruct po' as [p'|], (k_pool s x y) as [p|]; cbn [opt_ra opt_rb] in Ra, Rb;
+      destruct (Nat.eqb x d), (Nat.eqb y d); lia. }
+    lia.
+  - (* shares *)
+    intros x' y' Hx' Hy'. rewrite EP.
+    rewrite (sumN_ext _ _ (fun a => upd3 (k_sh s) who x y (k_sh s who x y + ds) a x' y')) by (intros; apply ES).
+    unfold upd2, upd3.
+    destruct (Nat.eqb_spec x' x) as [->|Nx]; destruct (Nat.eqb_spec y' y) as [->|Ny]; cbn [andb].
+    + rewrite (sumN_ext _ _ (upd (fun a => k_sh s a x y) who (k_sh s who x y + ds))).
+      2:{ intros i Hi. unfold upd. destruct (Nat.eqb i who); reflexivity. }
+      rewrite sw_sumN_upd by lia. rewrite Sh, (I2 x y) by assumption. lia.
+    + rewrite (sumN_ext _ _ (fun a => k_sh s a x y')).
+      2:{ intros i Hi. rewrite andb_false_r. reflexivity. }
+      apply I2; assumption.
+    + rewrite (sumN_ext _ _ (fun a => k_sh s a x' y)).
+      2:{ intros i Hi. destruct (Nat.eqb i who); reflexivity. }
+      apply I2; assumption.
+    + rewrite (sumN_ext _ _ (fun a => k_sh s a x' y')).
+      2:{ intros i Hi. destruct (Nat.eqb i who); reflexivity. }
+      apply I2; assumption.
+  - intros x0 y0 p H. rewrite EP in H. unfold upd2 in H.
+    destruct (Nat.eqb x0 x && Nat.eqb y0 y) eqn:B.
+    + apply andb_true_iff in B. destruct B as (B1 & B2). apply Nat.eqb_eq in B1, B2. subst x0 y0.
+      split; [apply Wf; exact H|exact Hxy].
+    + apply (I3 x0 y0 p H).
+  - intros a x' y'. rewrite ES. unfold upd3.
+    destruct (Nat.eqb a who && Nat.eqb x' x && Nat.eqb y' y); [exact Nn|apply I4].
+Qed.
+
+Lemma bank_send_spec s f t d amt s' : f <> t ->
+  bank_send s f t d amt = Some s' ->
+  (forall x y, k_pool s' x y = k_pool s x y) /\ (forall a x y, k_sh s' a x y = k_sh s a x y) /\
+  (amt = 0 \/ amt <= k_bal s f d) /\
+  forall a d', k_bal s' a d' = k_bal s a d'
+     - (if Nat.eqb a f && Nat.eqb d' d then amt else 0) + (if Nat.eqb a t && Nat.eqb d' d then amt else 0).
+Proof.
+  intros Nft H. unfold bank_send in H.
+  destruct (Z.eqb_spec amt 0) as [->|Nz].
+  - injection H as <-. repeat split; try (left; reflexivity).
+    intros a d'. destruct (_ && _), (_ && _); lia.
+  - destruct (Z.ltb_spec (k_bal s f d) amt) as [|Le]; [discriminate|].
+    injection H as <-. cbn [set_bal k_bal k_pool k_sh]. repeat split; try (right; exact Le).
+    intros a d'. unfold upd2.
+    destruct (Nat.eqb_spec a f), (Nat.eqb_spec a t), (Nat.eqb_spec t f), (Nat.eqb_spec d' d), (Nat.eqb_spec d d);
+      cbn [andb]; subst; try congruence; try lia.
+Qed.
+
+Lemma new_pool_shares_wf p : wf p -> new_pool_shares (ra p) (rb p) (sh p) = Some p.
+Proof.
+  intros (Ha & Hb & Hs). unfold new_pool_shares.
+  destruct (Z.leb_spec (ra p) 0); [lia|]. destruct (Z.leb_spec (rb p) 0); [lia|].
+  destruct (Z.leb_spec (sh p) 0); [lia|]. destruct p; reflexivity.
+Qed.
+
+Lemma pool_valid_wf p : pool_valid p = true <-> wf p.
+Proof.
+  unfold pool_valid, wf. rewrite !andb_true_iff, !Z.ltb_lt. lia.
+Qed.
+
+Lemma lo_hi d1 d2 : d1 <> d2 -> (lo d1 d2 < hi d1 d2)%nat.
+Proof. intros N. unfold lo, hi. destruct (Nat.ltb_spec d1 d2); lia. Qed.
+
+Lemma hi_lt d1 d2 n : (d1 < n)%nat -> (d2 < n)%nat -> (hi d1 d2 < n)%nat.
+Proof. intros. unfold hi. destruct (Nat.ltb d1 d2); assumption. Qed.
+
+(* the part of Deposit after the pool computation *)
+Definition deposit_tail (e : env) (s : kstate) (who x y : nat) (ax ay slip : Z)
+  (p' : pool) (actx acty shs : Z) : outcome kstate (list Z) :=
+      if (actx =? 0) || (acty =? 0) then Err else
+      if shs =? 0 then Err else
+      let qx := dec_quo (dec_of_int ax) (dec_of_int actx) in
+      let qy := dec_quo (dec_of_int ay) (dec_of_int acty) in
+      if negb (dec_ok qx && dec_ok qy) then Panic else
+      let slippage := dec_sub (Z.max qx qy) dec_one in
+      if slip <? slippage then Err else
+      if negb (pool_valid p') then Panic else
+      let s1 := update_pool s x y p' in
+      let owned := k_sh s1 who x y in
+      if negb (int_ok (owned + shs)) then Panic else
+      let s2 := set_shares s1 who x y (owned + shs) in
+      match bank_send s2 who (macc e) x actx with
+      | None => Err
+      | Some s3 =>
+          match bank_send s3 who (macc e) y acty with
+          | None => Err
+          | Some s4 => Ok s4 [actx; acty; shs]
+          end
+      end.
+
+Lemma applies_of_sends e s s2 s3 s4 who x y po' dx dy ds :
+  (x < y)%nat -> (y < nden e)%nat -> (who < nusers e)%nat ->
+  (forall x' y', k_pool s2 x' y' = upd2 (k_pool s) x y po' x' y') ->
+  (forall a x' y', k_sh s2 a x' y' = upd3 (k_sh s) who x y (k_sh s who x y + ds) a x' y') ->
+  (forall a d, k_bal s2 a d = k_bal s a d) ->
+  bank_send s2 who (macc e) x dx = Some s3 ->
+  bank_send s3 who (macc e) y dy = Some s4 ->
+  applies e s s4 who x y po' dx dy ds /\ (dx = 0 \/ dx <= k_bal s who x) /\ (dy = 0 \/ dy <= k_bal s who y).
+Proof.
+  intros Hxy Hy Hw EP ES EB B1 B2.
+  assert (N : who <> macc e) by (unfold macc; lia).
+  destruct (bank_send_spec _ _ _ _ _ _ N B1) as (P1 & S1 & F1 & Bal1).
+  destruct (bank_send_spec _ _ _ _ _ _ N B2) as (P2 & S2 & F2 & Bal2).
+  split; [|split].
+  - repeat split; try assumption.
+    + intros. rewrite P2, P1. apply EP.
+    + intros. rewrite S2, S1. apply ES.
+    + intros a d. rewrite Bal2, Bal1, EB.
+      destruct (Nat.eqb_spec a who), (Nat.eqb_spec a (macc e)); cbn [andb]; subst; try congruence;
+        destruct (Nat.eqb d x), (Nat.eqb d y); lia.
+  - rewrite <- EB. exact F1.
+  - destruct F2 as [F2|F2]; [left; exact F2|right].
+    rewrite Bal1, EB in F2. destruct (Nat.eqb_spec y x); [lia|].
+    rewrite !andb_false_r in F2. lia.
+Qed.
+
+Lemma deposit_tail_inv e s who x y ax ay sl p' actx acty shs s' outs :
+  (x < y)%nat -> (y < nden e)%nat -> (who < nusers e)%nat ->
+  0 <= actx -> 0 <= acty -> 0 <= shs ->
+  deposit_tail e s who x y ax ay sl p' actx acty shs = Ok s' outs ->
+  outs = [actx; acty; shs] /\ 1 <= actx /\ 1 <= acty /\ 1 <= shs /\ wf p' /\
+  dec_sub (Z.max (dec_quo (dec_of_int ax) (dec_of_int actx)) (dec_quo (dec_of_int ay) (dec_of_int acty))) dec_one <= sl /\
+  actx <= k_bal s who x /\ acty <= k_bal s who y /\
+  applies e s s' who x y (Some p') actx acty shs.
+Proof.
+  intros Hxy Hy Hw Px Py Ps H. unfold deposit_tail in H.
+  destruct (Z.eqb_spec actx 0); [discriminate|]. destruct (Z.eqb_spec acty 0); [discriminate|]. cbn [orb] in H.
+  destruct (Z.eqb_spec shs 0); [discriminate|].
+  destruct (negb (dec_ok _ && dec_ok _)); [discriminate|].
+  destruct (Z.ltb_spec sl (dec_sub (Z.max (dec_quo (dec_of_int ax) (dec_of_int actx)) (dec_quo (dec_of_int ay) (dec_of_int acty))) dec_one)) as [|Sl]; [discriminate|].
+  destruct (pool_valid p') eqn:PV; cbn [negb] in H; [|discriminate].
+  apply pool_valid_wf in PV.
+  assert (UP : update_pool s x y p' = set_pool s x y (Some p')).
+  { unfold update_pool. destruct (Z.eqb_spec (sh p') 0); [destruct PV as (_ & _ & ?); lia|reflexivity]. }
+  rewrite UP in H. cbn [set_pool k_sh] in H.
+  destruct (negb (int_ok _)); [discriminate|].
+  match type of H with match bank_send ?st _ _ _ _ with _ => _ end = _ => set (s2 := st) in * end.
+  destruct (bank_send s2 who (macc e) x actx) as [s3|] eqn:B1; [|discriminate].
+  destruct (bank_send s3 who (macc e) y acty) as [s4|] eqn:B2; [|discriminate].
+  injection H as <- <-.
+  destruct (applies_of_sends e s s2 s3 s4 who x y (Some p') actx acty shs Hxy Hy Hw) as (A & F1 & F2); try assumption; try (intros; reflexivity).
+  do 8 (split; [solve [reflexivity | lia | exact PV | exact Sl]|]). exact A.
+Qed.
+
+Lemma deposit_unfold e s who d1 a1 d2 a2 slip :
+  deposit e s who d1 a1 d2 a2 slip =
+  if (a1 <=? 0) || (a2 <=? 0) || Nat.eqb d1 d2 then Panic else
+  let x := lo d1 d2 in let y := hi d1 d2 in
+  let ax := sel d1 d2 a1 a2 in let ay := sel d1 d2 a2 a1 in
+  match
+    match k_pool s x y with
+    | Some p =>
+        match new_pool_shares (ra p) (rb p) (sh p) with
+        | None => Err
+        | Some p0 =>
+            match add_liquidity p0 ax ay with
+            | PPanic _ => Panic
+            | POk r => Ok r tt
+            end
+        end
+    | None =>
+        if negb (allowed_b (allowed e) x y) then Err else
+        match new_pool ax ay with
+        | None => Err
+        | Some p => Ok (p, (ax, ay, sh p)) tt
+        end
+    end
+  with
+  | Err => Err | Panic => Panic
+  | Ok (p', (actx, acty, shs)) _ => deposit_tail e s who x y ax ay slip p' actx acty shs
+  end.
+Proof. reflexivity. Qed.
+
+Lemma deposit_inv e s who d1 a1 d2 a2 sl s' outs :
+  Inv e s -> (who < nusers e)%nat -> (d1 < nden e)%nat -> (d2 < nden e)%nat ->
+  deposit e s who d1 a1 d2 a2 sl = Ok s' outs ->
+  let x := lo d1 d2 in let y := hi d1 d2 in
+  let ax := sel d1 d2 a1 a2 in let ay := sel d1 d2 a2 a1 in
+  exists p' actx acty shs,
+    outs = [actx; acty; shs] /\ d1 <> d2 /\ 1 <= ax /\ 1 <= ay /\
+    1 <= actx <= ax /\ 1 <= acty <= ay /\ 1 <= shs /\ wf p' /\
+    match k_pool s x y with
+    | Some p => add_liquidity p ax ay = POk (p', (actx, acty, shs))
+    | None => allowed_b (allowed e) x y = true /\ p' = mkPool ax ay (initial_shares ax ay) /\
+              actx = ax /\ acty = ay /\ shs = initial_shares ax ay
+    end /\
+    dec_sub (Z.max (dec_quo (dec_of_int ax) (dec_of_int actx)) (dec_quo (dec_of_int ay) (dec_of_int acty))) dec_one <= sl /\
+    actx <= k_bal s who x /\ acty <= k_bal s who y /\
+    applies e s s' who x y (Some p') actx acty shs.
+Proof.
+  intros I Hw H1 H2 H x y ax ay. rewrite deposit_unfold in H. fold x y ax ay in H. cbv zeta in H.
+  destruct (Z.leb_spec a1 0) as [|P1]; [discriminate|].
+  destruct (Z.leb_spec a2 0) as [|P2]; [discriminate|].
+  destruct (Nat.eqb_spec d1 d2) as [|N]; [discriminate|]. cbn [orb] in H.
+  assert (Hxy : (x < y)%nat) by (apply lo_hi; exact N).
+  assert (Hy : (y < nden e)%nat) by (apply hi_lt; assumption).
+  assert (Pax : 1 <= ax) by (unfold ax, sel; destruct (Nat.ltb d1 d2); lia).
+  assert (Pay : 1 <= ay) by (unfold ay, sel; destruct (Nat.ltb d1 d2); lia).
+  destruct I as (I1 & I2 & I3 & I4).
+  destruct (k_pool s x y) as [p|] eqn:KP.
+  - destruct (I3 x y p KP) as (W & _).
+    rewrite (new_pool_shares_wf p W) in H.
+    destruct (add_liquidity p ax ay) as [[p' [[actx acty] shs]]|] eqn:AL; [|discriminate].
+    destruct (add_liquidity_spec _ _ _ _ _ _ _ W AL) as (_ & _ & Bx & By & Bs & _).
+    apply deposit_tail_inv in H; try assumption; try lia.
+    destruct H as (-> & ? & ? & ? & ? & ? & ? & ? & A).
+    exists p', actx, acty, shs.
+    do 12 (split; [solve [reflexivity | lia | assumption]|]). exact A.
+  - destruct (allowed_b (allowed e) x y) eqn:AL; cbn [negb] in H; [|discriminate].
+    unfold new_pool in H.
+    destruct (Z.leb_spec ax 0); [lia|]. destruct (Z.leb_spec ay 0); [lia|]. cbn [orb sh] in H.
+    pose proof (initial_shares_pos ax ay Pax Pay).
+    apply deposit_tail_inv in H; try assumption; try lia.
+    destruct H as (-> & ? & ? & ? & ? & ? & ? & ? & A).
+    exists (mkPool ax ay (initial_shares ax ay)), ax, ay, (initial_shares ax ay).
+    do 12 (split; [solve [reflexivity | lia | assumption | repeat split; reflexivity]|]). exact A.
+Qed.
+
+(* a transfer between the caller and the module account, as a signed payment of the caller *)
+Lemma send_signed e s f t d amt s' who sg :
+  (who < nusers e)%nat ->
+  (f = who /\ t = macc e /\ sg = amt) \/ (f = macc e /\ t = who /\ sg = - amt) ->
+  bank_send s f t d amt = Some s' ->
+  (forall x y, k_pool s' x y = k_pool s x y) /\ (forall a x y, k_sh s' a x y = k_sh s a x y) /\
+  forall a d', k_bal s' a d' = k_bal s a d'
+     - (if Nat.eqb a who then (if Nat.eqb d' d then sg else 0) else 0)
+     + (if Nat.eqb a (macc e) then (if Nat.eqb d' d then sg else 0) else 0).
+Proof.
+  intros Hw Dir H.
+  assert (N : who <> macc e) by (unfold macc; lia).
+  assert (Nft : f <> t) by (destruct Dir as [(-> & -> & _)|(-> & -> & _)]; congruence).
+  destruct (bank_send_spec _ _ _ _ _ _ Nft H) as (P & S & _ & B).
+  split; [exact P|split; [exact S|]].
+  intros a d'. rewrite B.
+  destruct Dir as [(-> & -> & ->)|(-> & -> & ->)];
+    destruct (Nat.eqb_spec a who), (Nat.eqb_spec a (macc e)); cbn [andb]; subst; try congruence;
+    destruct (Nat.eqb d' d); lia.
+Qed.
+
+Lemma applies_of_two_sends e s s2 s3 s4 who x y po' dx dy ds f1 t1 dA v1 sg1 f2 t2 dB v2 sg2 :
+  (x < y)%nat -> (y < nden e)%nat -> (who < nusers e)%nat ->
+  (forall x' y', k_pool s2 x' y' = upd2 (k_pool s) x y po' x' y') ->
+  (forall a x' y', k_sh s2 a x' y' = upd3 (k_sh s) who x y (k_sh s who x y + ds) a x' y') ->
+  (forall a d, k_bal s2 a d = k_bal s a d) ->
+  (f1 = who /\ t1 = macc e /\ sg1 = v1) \/ (f1 = macc e /\ t1 = who /\ sg1 = - v1) ->
+  (f2 = who /\ t2 = macc e /\ sg2 = v2) \/ (f2 = macc e /\ t2 = who /\ sg2 = - v2) ->
+  bank_send s2 f1 t1 dA v1 = Some s3 ->
+  bank_send s3 f2 t2 dB v2 = Some s4 ->
+  (forall d, (if Nat.eqb d x then dx else 0) + (if Nat.eqb d y then dy else 0)
+           = (if Nat.eqb d dA then sg1 else 0) + (if Nat.eqb d dB then sg2 else 0)) ->
+  applies e s s4 who x y po' dx dy ds.
+Proof.
+  intros Hxy Hy Hw EP ES EB D1 D2 B1 B2 Pay.
+  destruct (send_signed e _ _ _ _ _ _ who sg1 Hw D1 B1) as (P1 & S1 & Bal1).
+  destruct (send_signed e _ _ _ _ _ _ who sg2 Hw D2 B2) as (P2 & S2 & Bal2).
+  repeat split; try assumption.
+  - intros. rewrite P2, P1. apply EP.
+  - intros. rewrite S2, S1. apply ES.
+  - intros a d. rewrite Bal2, Bal1, EB. rewrite (Pay d).
+    destruct (Nat.eqb a who), (Nat.eqb a (macc e)); lia.
+Qed.
+
+Lemma withdraw_inv e s who shares d1 m1 d2 m2 s' outs :
+  Inv e s -> (who < nusers e)%nat -> (d1 < nden e)%nat -> (d2 < nden e)%nat ->
+  withdraw e s who shares d1 m1 d2 m2 = Ok s' outs ->
+  let x := lo d1 d2 in let y := hi d1 d2 in
+  let mx := sel d1 d2 m1 m2 in let my := sel d1 d2 m2 m1 in
+  exists p p' wx wy,
+    outs = [wx; wy] /\ d1 <> d2 /\ k_pool s x y = Some p /\ wf p /\
+    remove_liquidity p shares = POk (p', (wx, wy)) /\
+    1 <= shares <= k_sh s who x y /\ 1 <= wx /\ 1 <= wy /\ mx <= wx /\ my <= wy /\
+    applies e s s' who x y (if sh p' =? 0 then None else Some p') (- wx) (- wy) (- shares).
+Proof.
+  intros I Hw H1 H2 H x y mx my. unfold withdraw in H.
+  change (if Nat.ltb d1 d2 then d1 else d2) with x in H.
+  change (if Nat.ltb d1 d2 then d2 else d1) with y in H.
+  change (if Nat.ltb d1 d2 then m1 else m2) with mx in H.
+  change (if Nat.ltb d1 d2 then m2 else m1) with my in H.
+  destruct (Nat.eqb_spec d1 d2) as [|N]; [discriminate|].
+  assert (Hxy : (x < y)%nat) by (apply lo_hi; exact N).
+  assert (Hy : (y < nden e)%nat) by (apply hi_lt; assumption).
+  destruct I as (I1 & I2 & I3 & I4).
+  destruct (Z.eqb_spec (k_sh s who x y) 0) as [|Own]; [discriminate|].
+  destruct (Z.ltb_spec (k_sh s who x y) shares) as [|Le]; [discriminate|].
+  destruct (k_pool s x y) as [p|] eqn:KP; [|discriminate].
+  destruct (I3 x y p KP) as (W & _).
+  rewrite (new_pool_shares_wf p W) in H.
+  destruct (remove_liquidity p shares) as [[p' [wx wy]]|] eqn:RL; [|discriminate].
+  destruct (remove_liquidity_spec _ _ _ _ _ W RL) as (Sh1 & Wx & Wy & _).
+  destruct (Z.eqb_spec wx 0); [discriminate|]. destruct (Z.eqb_spec wy 0); [discriminate|]. cbn [orb] in H.
+  destruct (Z.ltb_spec wx mx); [discriminate|]. destruct (Z.ltb_spec wy my); [discriminate|]. cbn [orb] in H.
+  destruct (negb (sh p' =? 0) && negb (pool_valid p')); [discriminate|].
+  match type of H with match bank_send ?st _ _ _ _ with _ => _ end = _ => set (s2 := st) in * end.
+  destruct (bank_send s2 (macc e) who x wx) as [s3|] eqn:B1; [|discriminate].
+  destruct (bank_send s3 (macc e) who y wy) as [s4|] eqn:B2; [|discriminate].
+  injection H as <- <-.
+  exists p, p', wx, wy.
+  do 10 (split; [solve [reflexivity | lia | assumption]|]).
+  eapply (applies_of_two_sends e s s2 s3 s4 who x y _ (- wx) (- wy) (- shares)
+            (macc e) who x wx (- wx) (macc e) who y wy (- wy)); try assumption; try eassumption.
+  - intros x' y'. unfold s2, update_pool. destruct (sh p' =? 0); reflexivity.
+  - intros a x' y'. unfold s2, update_pool. destruct (sh p' =? 0); reflexivity.
+  - intros a d. unfold s2, update_pool. destruct (sh p' =? 0); reflexivity.
+  - right. repeat split; reflexivity.
+  - right. repeat split; reflexivity.
+  - intros d. reflexivity.
+Qed.
+
+Lemma load_pool_inv e s d1 d2 dp x y : Inv e s -> (d1 < nden e)%nat -> (d2 < nden e)%nat ->
+  load_pool s d1 d2 = Ok dp (x, y) ->
+  d1 <> d2 /\ x = lo d1 d2 /\ y = hi d1 d2 /\ (x < y)%nat /\ (y < nden e)%nat /\
+  exists p, k_pool s x y = Some p /\ wf p /\ dp = mkDP p x y.
+Proof.
+  intros (I1 & I2 & I3 & I4) H1 H2 H. unfold load_pool in H.
+  change (if Nat.ltb d1 d2 then d1 else d2) with (lo d1 d2) in H.
+  change (if Nat.ltb d1 d2 then d2 else d1) with (hi d1 d2) in H.
+  destruct (Nat.eqb_spec d1 d2) as [|N]; [discriminate|].
+  destruct (k_pool s (lo d1 d2) (hi d1 d2)) as [p|] eqn:KP; [|discriminate].
+  destruct (I3 _ _ p KP) as (W & _).
+  rewrite (new_pool_shares_wf p W) in H.
+  injection H as <- <- <-.
+  repeat split; try reflexivity; try assumption.
+  - apply lo_hi; exact N.
+  - apply hi_lt; assumption.
+  - exists p. repeat split; try assumption; apply W.
+Qed.
+
+Lemma lo_or_hi d1 d2 : d1 <> d2 -> (d1 = lo d1 d2 /\ d2 = hi d1 d2) \/ (d1 = hi d1 d2 /\ d2 = lo d1 d2).
+Proof. intros N. unfold lo, hi. destruct (Nat.ltb d1 d2); [left|right]; split; reflexivity. Qed.
+
+Lemma commit_swap_inv e s x y p' who din ain dout aout fv s' outs :
+  (x < y)%nat -> (y < nden e)%nat -> (who < nusers e)%nat ->
+  (din = x /\ dout = y) \/ (din = y /\ dout = x) ->
+  commit_swap e s x y p' who din ain dout aout fv = Ok s' outs ->
+  outs = [ain; aout; fv] /\ wf p' /\
+  applies e s s' who x y (Some p')
+    (if Nat.eqb din x then ain else - aout) (if Nat.eqb din x then - aout else ain) 0.
+Proof.
+  intros Hxy Hy Hw Dn H. unfold commit_swap in H.
+  destruct (pool_valid p') eqn:PV; cbn [negb] in H; [|discriminate]. apply pool_valid_wf in PV.
+  match type of H with match bank_send ?st _ _ _ _ with _ => _ end = _ => set (s1 := st) in * end.
+  destruct (bank_send s1 who (macc e) din ain) as [s2|] eqn:B1; [|discriminate].
+  destruct (bank_send s2 (macc e) who dout aout) as [s3|] eqn:B2; [|discriminate].
+  injection H as <- <-.
+  split; [reflexivity|split; [exact PV|]].
+  eapply (applies_of_two_sends e s s1 s2 s3 who x y _ _ _ 0
+            who (macc e) din ain ain (macc e) who dout aout (- aout)); try assumption; try eassumption.
+  - intros; reflexivity.
+  - intros a x' y'. unfold s1. cbn [set_pool k_sh]. unfold upd3.
+    destruct (Nat.eqb a who && Nat.eqb x' x && Nat.eqb y' y) eqn:B; [|reflexivity].
+    apply andb_true_iff in B. destruct B as (B & B3). apply andb_true_iff in B. destruct B as (B1' & B2').
+    apply Nat.eqb_eq in B1', B2', B3. subst. lia.
+  - intros; reflexivity.
+  - left. repeat split; reflexivity.
+  - right. repeat split; reflexivity.
+  - intros d. destruct Dn as [(-> & ->)|(-> & ->)].
+    + rewrite Nat.eqb_refl. reflexivity.
+    + destruct (Nat.eqb_spec y x); [lia|]. destruct (Nat.eqb d x), (Nat.eqb d y); lia.
+Qed.
+
+Lemma swap_in_inv e s who din ain dout bdes sl s' outs :
+  Inv e s -> (who < nusers e)%nat -> (din < nden e)%nat -> (dout < nden e)%nat ->
+  swap_exact_for_tokens e s who din ain dout bdes sl = Ok s' outs ->
+  let x := lo din dout in let y := hi din dout in
+  exists p p' out fv,
+    outs = [ain; out; fv] /\ din <> dout /\ k_pool s x y = Some p /\ wf p /\ wf p' /\
+    (if Nat.eqb din x then swap_exact_a_for_b p ain (swap_fee e) else swap_exact_b_for_a p ain (swap_fee e))
+      = POk (p', (out, fv)) /\
+    1 <= out /\
+    dec_sub dec_one (dec_quo (dec_of_int out) (dec_of_int bdes)) <= sl /\
+    applies e s s' who x y (Some p') (if Nat.eqb din x then ain else - out) (if Nat.eqb din x then - out else ain) 0.
+Proof.
+  intros I Hw H1 H2 H x y. unfold swap_exact_for_tokens in H.
+  destruct (load_pool s din dout) as [dp [x0 y0]| |] eqn:LP; try discriminate.
+  destruct (load_pool_inv e s din dout dp x0 y0 I H1 H2 LP) as (N & -> & -> & Hxy & Hy & p & KP & W & ->).
+  fold x y in H, KP, Hxy, Hy.
+  unfold dp_swap_exact_in in H. cbn [dp_pool dp_a dp_b] in H.
+  destruct (lo_or_hi din dout N) as [(Ex & Ey)|(Ey & Ex)]; fold x y in Ex, Ey.
+  - (* the input is denom A *)
+    rewrite <- Ex in *. rewrite Nat.eqb_refl in *.
+    destruct (swap_exact_a_for_b p ain (swap_fee e)) as [[p' [out fv]]|] eqn:SW; [|discriminate].
+    cbn [dp_pool] in H.
+    destruct (swap_exact_a_for_b_spec _ _ _ _ _ _ W SW) as (_ & _ & _ & _ & _ & Ob & _).
+    destruct (Z.eqb_spec out 0); [discriminate|].
+    destruct (bdes =? 0); [discriminate|].
+    destruct (negb (dec_ok (dec_quo _ _))); [discriminate|].
+    destruct (negb (dec_ok (dec_sub _ _))); [discriminate|].
+    destruct (Z.ltb_spec sl (dec_sub dec_one (dec_quo (dec_of_int out) (dec_of_int bdes)))) as [|Sl]; [discriminate|].
+    apply commit_swap_inv in H; try assumption; [|left; split; first [reflexivity|assumption]].
+    destruct H as (-> & W' & A). rewrite Nat.eqb_refl in A.
+    exists p, p', out, fv.
+    do 8 (split; [solve [reflexivity | lia | assumption]|]). exact A.
+  - (* the input is denom B *)
+    assert (NE : Nat.eqb din x = false) by (apply Nat.eqb_neq; lia).
+    rewrite NE in *. rewrite <- Ey in *. rewrite Nat.eqb_refl in H.
+    destruct (swap_exact_b_for_a p ain (swap_fee e)) as [[p' [out fv]]|] eqn:SW; [|discriminate].
+    cbn [dp_pool] in H.
+    destruct (swap_exact_b_for_a_spec _ _ _ _ _ _ W SW) as (_ & _ & _ & _ & _ & Ob & _).
+    destruct (Z.eqb_spec out 0); [discriminate|].
+    destruct (bdes =? 0); [discriminate|].
+    destruct (negb (dec_ok (dec_quo _ _))); [discriminate|].
+    destruct (negb (dec_ok (dec_sub _ _))); [discriminate|].
+    destruct (Z.ltb_spec sl (dec_sub dec_one (dec_quo (dec_of_int out) (dec_of_int bdes)))) as [|Sl]; [discriminate|].
+    apply commit_swap_inv in H; try assumption; [|right; split; first [reflexivity|assumption]].
+    destruct H as (-> & W' & A). rewrite NE in A.
+    exists p, p', out, fv.
+    do 8 (split; [solve [reflexivity | lia | assumption]|]). exact A.
+Qed.
+
+Lemma swap_out_inv e s who din amax dout bex sl s' outs :
+  Inv e s -> (who < nusers e)%nat -> (din < nden e)%nat -> (dout < nden e)%nat ->
+  swap_for_exact_tokens e s who din amax dout bex sl = Ok s' outs ->
+  let x := lo din dout in let y := hi din dout in
+  exists p p' inn fv,
+    outs = [inn; bex; fv] /\ din <> dout /\ k_pool s x y = Some p /\ wf p /\ wf p' /\
+    (if Nat.eqb din x then swap_a_for_exact_b p bex (swap_fee e) else swap_b_for_exact_a p bex (swap_fee e))
+      = POk (p', (inn, fv)) /\
+    1 <= inn - fv /\
+    dec_sub dec_one (dec_quo (dec_of_int amax) (dec_of_int (inn - fv))) <= sl /\
+    applies e s s' who x y (Some p') (if Nat.eqb din x then inn else - bex) (if Nat.eqb din x then - bex else inn) 0.
+Proof.
+  intros I Hw H1 H2 H x y. unfold swap_for_exact_tokens in H.
+  destruct (load_pool s din dout) as [dp [x0 y0]| |] eqn:LP; try discriminate.
+  destruct (load_pool_inv e s din dout dp x0 y0 I H1 H2 LP) as (N & -> & -> & Hxy & Hy & p & KP & W & ->).
+  fold x y in H, KP, Hxy, Hy.
+  unfold dp_swap_exact_out, dp_reserve in H. cbn [dp_pool dp_a dp_b] in H.
+  destruct (lo_or_hi din dout N) as [(Ex & Ey)|(Ey & Ex)]; fold x y in Ex, Ey.
+  - (* the input is denom A, the output denom B *)
+    rewrite <- Ex in *. rewrite Nat.eqb_refl in *.
+    assert (NE : Nat.eqb dout din = false) by (apply Nat.eqb_neq; lia).
+    rewrite NE in H. rewrite <- Ey in *. rewrite Nat.eqb_refl in H.
+    destruct (rb p <=? bex); [discriminate|].
+    destruct (swap_a_for_exact_b p bex (swap_fee e)) as [[p' [inn fv]]|] eqn:SW; [|discriminate].
+    cbn [dp_pool] in H.
+    destruct (swap_a_for_exact_b_spec _ _ _ _ _ _ W SW) as (_ & _ & _ & _ & _ & Ob & _).
+    destruct (inn - fv <? 0); [discriminate|]. destruct (inn - fv =? 0); [discriminate|].
+    destruct (negb (dec_ok (dec_quo _ _))); [discriminate|].
+    destruct (negb (dec_ok (dec_sub _ _))); [discriminate|].
+    destruct (Z.ltb_spec sl (dec_sub dec_one (dec_quo (dec_of_int amax) (dec_of_int (inn - fv))))) as [|Sl]; [discriminate|].
+    apply commit_swap_inv in H; try assumption; [|left; split; first [reflexivity|assumption]].
+    destruct H as (-> & W' & A). rewrite Nat.eqb_refl in A.
+    exists p, p', inn, fv.
+    do 8 (split; [solve [reflexivity | lia | assumption]|]). exact A.
+  - (* the input is denom B, the output denom A *)
+    assert (NE : Nat.eqb din x = false) by (apply Nat.eqb_neq; lia).
+    rewrite NE in *. rewrite <- Ex in *. rewrite Nat.eqb_refl in H.
+    destruct (ra p <=? bex); [discriminate|].
+    destruct (swap_b_for_exact_a p bex (swap_fee e)) as [[p' [inn fv]]|] eqn:SW; [|discriminate].
+    cbn [dp_pool] in H.
+    destruct (swap_b_for_exact_a_spec _ _ _ _ _ _ W SW) as (_ & _ & _ & _ & _ & Ob & _).
+    destruct (inn - fv <? 0); [discriminate|]. destruct (inn - fv =? 0); [discriminate|].
+    destruct (negb (dec_ok (dec_quo _ _))); [discriminate|].
+    destruct (negb (dec_ok (dec_sub _ _))); [discriminate|].
+    destruct (Z.ltb_spec sl (dec_sub dec_one (dec_quo (dec_of_int amax) (dec_of_int (inn - fv))))) as [|Sl]; [discriminate|].
+    apply commit_swap_inv in H; try assumption; [|right; split; first [reflexivity|assumption]].
+    destruct H as (-> & W' & A). rewrite NE in A.
+    exists p, p', inn, fv.
+    do 8 (split; [solve [reflexivity | lia | assumption]|]). exact A.
+Qed.
+
+(** ** the module invariant is preserved by every operation, hence by every history *)
+
+Lemma in_range_inv e o : op_in_range e o = true ->
+  (op_who o < nusers e)%nat /\ (fst (op_denoms o) < nden e)%nat /\ (snd (op_denoms o) < nden e)%nat.
+Proof.
+  unfold op_in_range. intros R. apply andb_true_iff in R. destruct R as (R & R3).
+  apply andb_true_iff in R. destruct R as (R1 & R2). apply Nat.ltb_lt in R1, R2, R3. auto.
+Qed.
+
+Lemma deposit_preserves e s who d1 a1 d2 a2 sl s' outs :
+  Inv e s -> (who < nusers e)%nat -> (d1 < nden e)%nat -> (d2 < nden e)%nat ->
+  deposit e s who d1 a1 d2 a2 sl = Ok s' outs -> Inv e s'.
+Proof.
+  intros I Hw H1 H2 H.
+  destruct (deposit_inv _ _ _ _ _ _ _ _ _ _ I Hw H1 H2 H) as (p' & actx & acty & shs & _ & N & ? & ? & ? & ? & ? & W' & M & _ & _ & _ & A).
+  pose proof I as (_ & _ & I3 & I4).
+  assert (F : opt_ra (Some p') = opt_ra (k_pool s (lo d1 d2) (hi d1 d2)) + actx /\
+              opt_rb (Some p') = opt_rb (k_pool s (lo d1 d2) (hi d1 d2)) + acty /\
+              pool_shares (Some p') = pool_shares (k_pool s (lo d1 d2) (hi d1 d2)) + shs).
+  { destruct (k_pool s (lo d1 d2) (hi d1 d2)) as [p|] eqn:KP.
+    - destruct (I3 _ _ p KP) as (W & _).
+      destruct (add_liquidity_spec _ _ _ _ _ _ _ W M) as (_ & _ & _ & _ & _ & Ea & Eb & Es & _).
+      cbn [opt_ra opt_rb pool_shares]. lia.
+    - destruct M as (_ & -> & -> & -> & ->). cbn [opt_ra opt_rb pool_shares ra rb sh]. lia. }
+  destruct F as (F1 & F2 & F3).
+  eapply inv_effect; [exact I|exact A| | exact F1 | exact F2 | exact F3 |].
+  - intros q E. injection E as <-. exact W'.
+  - specialize (I4 who (lo d1 d2) (hi d1 d2)). lia.
+Qed.
+
+Lemma withdraw_preserves e s who shares d1 m1 d2 m2 s' outs :
+  Inv e s -> (who < nusers e)%nat -> (d1 < nden e)%nat -> (d2 < nden e)%nat ->
+  withdraw e s who shares d1 m1 d2 m2 = Ok s' outs -> Inv e s'.
+Proof.
+  intros I Hw H1 H2 H.
+  destruct (withdraw_inv _ _ _ _ _ _ _ _ _ _ I Hw H1 H2 H) as (p & p' & wx & wy & _ & N & KP & W & RL & Sh1 & ? & ? & _ & _ & A).
+  destruct (remove_liquidity_spec _ _ _ _ _ W RL) as (Sh2 & Wx & Wy & Ea & Eb & Es & _ & _ & Lt & Eq).
+  eapply inv_effect; [exact I|exact A| | | | |]; rewrite ?KP; cbn [opt_ra opt_rb pool_shares].
+  - intros q E. destruct (Z.eqb_spec (sh p') 0); [discriminate|]. injection E as <-.
+    assert (HL : shares < sh p) by lia. destruct (Lt HL). unfold wf. lia.
+  - destruct (Z.eqb_spec (sh p') 0) as [Z0|]; cbn [opt_ra]; [|lia].
+    assert (HE : shares = sh p) by lia. destruct (Eq HE). lia.
+  - destruct (Z.eqb_spec (sh p') 0) as [Z0|]; cbn [opt_rb]; [|lia].
+    assert (HE : shares = sh p) by lia. destruct (Eq HE). lia.
+  - destruct (Z.eqb_spec (sh p') 0) as [Z0|]; cbn [pool_shares]; lia.
+  - lia.
+Qed.
+
+Lemma swap_in_preserves e s who din ain dout bdes sl s' outs :
+  Inv e s -> (who < nusers e)%nat -> (din < nden e)%nat -> (dout < nden e)%nat ->
+  swap_exact_for_tokens e s who din ain dout bdes sl = Ok s' outs -> Inv e s'.
+Proof.
+  intros I Hw H1 H2 H.
+  destruct (swap_in_inv _ _ _ _ _ _ _ _ _ _ I Hw H1 H2 H) as (p & p' & out & fv & _ & N & KP & W & W' & SW & _ & _ & A).
+  pose proof I as (_ & _ & _ & I4).
+  eapply inv_effect; [exact I|exact A| | | | |]; rewrite ?KP; cbn [opt_ra opt_rb pool_shares].
+  - intros q E. injection E as <-. exact W'.
+  - destruct (Nat.eqb din (lo din dout)).
+    + destruct (swap_exact_a_for_b_spec _ _ _ _ _ _ W SW) as (_ & _ & Ea & Eb & Es & _). lia.
+    + destruct (swap_exact_b_for_a_spec _ _ _ _ _ _ W SW) as (_ & _ & Ea & Eb & Es & _). lia.
+  - destruct (Nat.eqb din (lo din dout)).
+    + destruct (swap_exact_a_for_b_spec _ _ _ _ _ _ W SW) as (_ & _ & Ea & Eb & Es & _). lia.
+    + destruct (swap_exact_b_for_a_spec _ _ _ _ _ _ W SW) as (_ & _ & Ea & Eb & Es & _). lia.
+  - destruct (Nat.eqb din (lo din dout)).
+    + destruct (swap_exact_a_for_b_spec _ _ _ _ _ _ W SW) as (_ & _ & Ea & Eb & Es & _). lia.
+    + destruct (swap_exact_b_for_a_spec _ _ _ _ _ _ W SW) as (_ & _ & Ea & Eb & Es & _). lia.
+  - specialize (I4 who (lo din dout) (hi din dout)). lia.
+Qed.
+
+Lemma swap_out_preserves e s who din amax dout bex sl s' outs :
+  Inv e s -> (who < nusers e)%nat -> (din < nden e)%nat -> (dout < nden e)%nat ->
+  swap_for_exact_tokens e s who din amax dout bex sl = Ok s' outs -> Inv e s'.
+Proof.
+  intros I Hw H1 H2 H.
+  destruct (swap_out_inv _ _ _ _ _ _ _ _ _ _ I Hw H1 H2 H) as (p & p' & inn & fv & _ & N & KP & W & W' & SW & _ & _ & A).
+  pose proof I as (_ & _ & _ & I4).
+  eapply inv_effect; [exact I|exact A| | | | |]; rewrite ?KP; cbn [opt_ra opt_rb pool_shares].
+  - intros q E. injection E as <-. exact W'.
+  - destruct (Nat.eqb din (lo din dout)).
+    + destruct (swap_a_for_exact_b_spec _ _ _ _ _ _ W SW) as (_ & _ & Ea & Eb & Es & _). lia.
+    + destruct (swap_b_for_exact_a_spec _ _ _ _ _ _ W SW) as (_ & _ & Ea & Eb & Es & _). lia.
+  - destruct (Nat.eqb din (lo din dout)).
+    + destruct (swap_a_for_exact_b_spec _ _ _ _ _ _ W SW) as (_ & _ & Ea & Eb & Es & _). lia.
+    + destruct (swap_b_for_exact_a_spec _ _ _ _ _ _ W SW) as (_ & _ & Ea & Eb & Es & _). lia.
+  - destruct (Nat.eqb din (lo din dout)).
+    + destruct (swap_a_for_exact_b_spec _ _ _ _ _ _ W SW) as (_ & _ & Ea & Eb & Es & _). lia.
+    + destruct (swap_b_for_exact_a_spec _ _ _ _ _ _ W SW) as (_ & _ & Ea & Eb & Es & _). lia.
+  - specialize (I4 who (lo din dout) (hi din dout)). lia.
+Qed.
+
+Lemma step_inv e s o s' outs : Inv e s -> step e s o = Ok s' outs -> Inv e s'.
+Proof.
+  intros I H. unfold step in H.
+  destruct (op_in_range e o) eqn:R; cbn [negb] in H; [|discriminate].
+  destruct (in_range_inv e o R) as (R1 & R2 & R3).
+  destruct o; cbn [op_who op_denoms fst snd] in R1, R2, R3.
+  - exact (deposit_preserves _ _ _ _ _ _ _ _ _ _ I R1 R2 R3 H).
+  - exact (withdraw_preserves _ _ _ _ _ _ _ _ _ _ I R1 R2 R3 H).
+  - exact (swap_in_preserves _ _ _ _ _ _ _ _ _ _ I R1 R2 R3 H).
+  - exact (swap_out_preserves _ _ _ _ _ _ _ _ _ _ I R1 R2 R3 H).
+Qed.
+
+Lemma step'_inv e s o : Inv e s -> Inv e (step' e s o).
+Proof.
+  intros I. unfold step'. destruct (step e s o) as [s' outs| |] eqn:E; try exact I.
+  eapply step_inv; eassumption.
+Qed.
+
+Lemma run_inv e ops : forall s, Inv e s -> Inv e (run e s ops).
+Proof.
+  induction ops as [|o ops IH]; intros s I; cbn [run fold_left]; [exact I|].
+  apply IH. apply step'_inv. exact I.
+Qed.
+
+Lemma sumN_zero n f : (forall i, (i < n)%nat -> f i = 0) -> sumN n f = 0.
+Proof.
+  induction n as [|n IH]; intros H; cbn [sumN]; [reflexivity|].
+  rewrite IH by (intros; apply H; lia). rewrite H by lia. reflexivity.
+Qed.
+
+(* a genesis without pools: the module account holds nothing *)
+Lemma inv_init e bal : (forall d, (d < nden e)%nat -> bal (macc e) d = 0) ->
+  Inv e (mkK bal (fun _ _ => None) (fun _ _ _ => 0)).
+Proof.
+  intros H. split; [|split; [|split]]; cbn [k_bal k_pool k_sh].
+  - intros d Hd. rewrite H by exact Hd. symmetry. unfold sum2.
+    apply sumN_zero. intros i Hi. apply sumN_zero. intros j Hj. reflexivity.
+  - intros x y Hx Hy. cbn [pool_shares]. symmetry. apply sumN_zero. reflexivity.
+  - intros x y p E. discriminate.
+  - intros. lia.
+Qed.
+
+(** ** what a successful operation does to the coins *)
+
+Lemma step_applies e s o s' outs : Inv e s -> step e s o = Ok s' outs ->
+  exists x y po' dx dy ds, applies e s s' (op_who o) x y po' dx dy ds.
+Proof.
+  intros I H. unfold step in H.
+  destruct (op_in_range e o) eqn:R; cbn [negb] in H; [|discriminate].
+  destruct (in_range_inv e o R) as (R1 & R2 & R3).
+  destruct o; cbn [op_who op_denoms fst snd] in R1, R2, R3 |- *.
+  - destruct (deposit_inv _ _ _ _ _ _ _ _ _ _ I R1 R2 R3 H) as (p' & actx & acty & shs & _ & _ & _ & _ & _ & _ & _ & _ & _ & _ & _ & _ & A).
+    do 6 eexists; exact A.
+  - destruct (withdraw_inv _ _ _ _ _ _ _ _ _ _ I R1 R2 R3 H) as (p & p' & wx & wy & _ & _ & _ & _ & _ & _ & _ & _ & _ & _ & A).
+    do 6 eexists; exact A.
+  - destruct (swap_in_inv _ _ _ _ _ _ _ _ _ _ I R1 R2 R3 H) as (p & p' & out & fv & _ & _ & _ & _ & _ & _ & _ & _ & A).
+    do 6 eexists; exact A.
+  - destruct (swap_out_inv _ _ _ _ _ _ _ _ _ _ I R1 R2 R3 H) as (p & p' & inn & fv & _ & _ & _ & _ & _ & _ & _ & _ & A).
+    do 6 eexists; exact A.
+Qed.
+
+(* coins only move between the caller and the module account, and are conserved *)
+Lemma step_coins e s o s' outs : Inv e s -> step e s o = Ok s' outs ->
+  (forall a d, a <> op_who o -> a <> macc e -> k_bal s' a d = k_bal s a d) /\
+  (forall d, k_bal s' (op_who o) d + k_bal s' (macc e) d = k_bal s (op_who o) d + k_bal s (macc e) d).
+Proof.
+  intros I H. destruct (step_applies e s o s' outs I H) as (x & y & po' & dx & dy & ds & (_ & _ & Hw & _ & _ & EB)).
+  assert (N : op_who o <> macc e) by (unfold macc; lia).
+  split.
+  - intros a d Na Nm. rewrite EB.
+    destruct (Nat.eqb_spec a (op_who o)); [congruence|]. destruct (Nat.eqb_spec a (macc e)); [congruence|]. lia.
+  - intros d. rewrite !EB. rewrite !Nat.eqb_refl.
+    destruct (Nat.eqb_spec (op_who o) (macc e)); [congruence|].
+    destruct (Nat.eqb_spec (macc e) (op_who o)); [congruence|]. lia.
+Qed.
+
+(** ** keeper level: deposit, then withdraw the minted shares *)
+
+Lemma keeper_round_trip e s who d1 a1 d2 a2 sl s1 actx acty shs m1 m2 s2 outs2 :
+  Inv e s -> (who < nusers e)%nat -> (d1 < nden e)%nat -> (d2 < nden e)%nat ->
+  deposit e s who d1 a1 d2 a2 sl = Ok s1 [actx; acty; shs] ->
+  withdraw e s1 who shs d1 m1 d2 m2 = Ok s2 outs2 ->
+  forall d, k_bal s2 who d <= k_bal s who d.
+Proof.
+  intros I Hw H1 H2 HD HW.
+  pose proof (deposit_preserves _ _ _ _ _ _ _ _ _ _ I Hw H1 H2 HD) as I1.
+  destruct (deposit_inv _ _ _ _ _ _ _ _ _ _ I Hw H1 H2 HD) as (p' & actx' & acty' & shs' & EO & N & ? & ? & ? & ? & ? & W' & M & _ & _ & _ & A1).
+  injection EO as <- <- <-.
+  destruct (withdraw_inv _ _ _ _ _ _ _ _ _ _ I1 Hw H1 H2 HW) as (q & q' & wx & wy & _ & _ & KP & W & RL & _ & _ & _ & _ & _ & A2).
+  set (x := lo d1 d2) in *. set (y := hi d1 d2) in *.
+  destruct A1 as (Hxy & Hy & _ & EP1 & _ & EB1). destruct A2 as (_ & _ & _ & _ & _ & EB2).
+  assert (Q : q = p').
+  { rewrite EP1 in KP. unfold upd2 in KP. rewrite !Nat.eqb_refl in KP. cbn [andb] in KP. congruence. }
+  subst q.
+  assert (NP : wx <= actx /\ wy <= acty).
+  { destruct (k_pool s x y) as [p|] eqn:KP0.
+    - pose proof I as (_ & _ & I3 & _). destruct (I3 _ _ p KP0) as (Wp & _).
+      eapply deposit_withdraw_no_profit; [left; exact Wp|exact M|exact RL].
+    - destruct M as (_ & Ep & Ex & Ey & Es).
+      eapply (deposit_withdraw_no_profit (mkPool 0 0 0) (sel d1 d2 a1 a2) (sel d1 d2 a2 a1));
+        [right; reflexivity| |exact RL].
+      rewrite add_liquidity_empty by (try reflexivity; lia). subst. reflexivity. }
+  intros d. rewrite EB2, EB1. rewrite Nat.eqb_refl.
+  destruct (Nat.eqb_spec who (macc e)); [unfold macc in *; lia|].
+  destruct (Nat.eqb_spec d x), (Nat.eqb_spec d y); lia.
+Qed.
+
+(** ** denom order: naming the two tokens in the other order gives the same result *)
+
+Lemma deposit_arg_order e s who d1 a1 d2 a2 sl :
+  deposit e s who d1 a1 d2 a2 sl = deposit e s who d2 a2 d1 a1 sl.
+Proof.
+  rewrite !deposit_unfold. unfold lo, hi, sel.
+  rewrite (Nat.eqb_sym d2 d1), (orb_comm (a2 <=? 0)).
+  destruct (Nat.eqb_spec d1 d2) as [->|N]; [rewrite !orb_true_r; reflexivity|].
+  destruct (Nat.ltb_spec d1 d2), (Nat.ltb_spec d2 d1); try lia; reflexivity.
+Qed.
+
+Lemma withdraw_arg_order e s who shares d1 m1 d2 m2 :
+  withdraw e s who shares d1 m1 d2 m2 = withdraw e s who shares d2 m2 d1 m1.
+Proof.
+  unfold withdraw. rewrite (Nat.eqb_sym d2 d1).
+  destruct (Nat.eqb_spec d1 d2) as [->|N]; [reflexivity|].
+  destruct (Nat.ltb_spec d1 d2), (Nat.ltb_spec d2 d1); try lia; reflexivity.
+Qed.
